@@ -1127,6 +1127,9 @@ export class ProcGenWrapper {
           nodeDataProxy.replaceDataOnPath(modelLvaluePath, value)
           nodeDataProxy.applyDataUpdates(false)
         })
+      } else if (modelLvaluePath === null) {
+        // not assignable (any more): the listener of an earlier path must not write
+        elem.setModelBindingListener(name, () => {})
       }
     }
     this.tryCallPropertyChangeListener(elem, name, v)
